@@ -312,6 +312,48 @@ def main(a0, a1):
     ys[1] = ys[1] * 2
     return (r, s, a0[0], a0[1], [x for x in a0])
 ''', ['L2', 'R']),
+    ('nested-lists-two-level-store', '''
+@fp.fpy
+def h0(p0, p1):
+    p0[1][0] = p0[1][0] + p1
+    return p0[0][0]
+
+@fp.fpy
+def main(a0, a1):
+    xss = [a0, a0[:], [a1, a1 / 3]]
+    xss[0][1] = a1 * 2
+    row = xss[1]
+    row[0] = 100
+    r = h0(xss, a1)
+    yss = xss[1:]
+    yss[0][1] = 7
+    (p, (q, s)) = (a1, (xss[2][1], len(xss)))
+    return (a0[0], a0[1], xss[1][0], xss[1][1], xss[2][0], r, q, s, [x for row2 in xss for x in row2])
+''', ['L2', 'R']),
+    ('ctx-var-reuse-and-helper-chain', '''
+@fp.fpy
+def h0(p0):
+    return p0 / 3
+
+@fp.fpy(ctx=fp.MPFloatContext(2, fp.RM.{rm2}))
+def h1(p0):
+    return h0(p0) + p0 / 7
+
+@fp.fpy
+def h2(p0):
+    return h1(p0) + h0(p0)
+
+@fp.fpy
+def main(a0, a1):
+    with fp.MPFloatContext(4, fp.RM.{rm1}) as c:
+        x = h2(a0)
+    y = a0 / 3
+    with c:
+        z = h0(a1) + a1 / 7
+    with fp.REAL:
+        w = h2(a1)
+    return (x, y, z, w, a0 < y <= z != w, 1 < a0 / 3 < 2)
+''', ['R', 'R']),
     ('augmented-ops', '''
 @fp.fpy
 def main(a0, a1):
@@ -434,7 +476,7 @@ def template_cases(seed, tier):
 
 def shards(tier, seed):
     n_shards = 96 if tier == 'thorough' else 32
-    per = 1500 if tier == 'thorough' else 90
+    per = 1500 if tier == 'thorough' else 220
     out = [('gen', i, per, seed, tier) for i in range(n_shards)]
     out += [('hyp', i, 150 if tier == 'thorough' else 25, seed, tier) for i in range(16 if tier == 'thorough' else 8)]
     out.append(('tmpl', seed, tier))
